@@ -212,24 +212,12 @@ impl Reg {
         if mask & self.q_mask == self.q_mask {
             return self.reset(0);
         }
-        match self.th {
-            threading::Single => {
-                self.psi
-                    .iter_mut()
-                    .enumerate()
-                    .filter(|(idx, _)| idx & mask != 0)
-                    .for_each(|(_, psi)| *psi = C_ZERO);
-            }
-            #[cfg(feature = "multi-thread")]
-            threading::Multi(n) => crate::threads::global_install(n, || {
-                self.psi
-                    .par_iter_mut()
-                    .enumerate()
-                    .filter(|(idx, _)| idx & mask != 0)
-                    .for_each(|(_, psi)| *psi = C_ZERO);
-            }),
+        // Measure the named qubits and flip those found in |1>: they end in |0> and the
+        // remaining qubits keep their (post-measurement) state.
+        let found = self.measure_mask(mask).get();
+        if found != 0 {
+            self.apply(&crate::operator::x(found));
         }
-        self.normalize();
     }
 
     /// Acquire the [`VReg`](super::VReg) for a whole quantum register.
